@@ -27,6 +27,9 @@ AttrForms == {"tok_ok", "rx_ok", "rx_cb_ok", "rx_greedy_allowed", "no_attr", "tw
               "ignore_bad", "ignore_ascii", "empty_attr", "attr_no_parens", "greedy_notbool", "two_positional"}
 
 EnumForms == {"plain", "extras", "error_ty", "error_cb", "skip_ok", "skip_group", "utf8_false", "utf8_true", "crate_path", "subpattern_ok",
+              \* generic enums: lifetimes and type parameters
+              "gen_lt", "gen_two_lt_attr", "gen_lt_none", "gen_type_ok", "gen_type_lt_order",
+              "gen_two_lt_no_attr", "gen_lt_undeclared", "gen_lt_dup", "gen_type_missing", "gen_type_undeclared", "gen_type_dup",
               \* malformed / duplicated
               "dup_extras", "dup_error", "dup_utf8", "unknown_logos", "logos_no_parens", "bad_utf8_val", "skip_nullable", "skip_bad_lit",
               "sub_dup", "sub_bad_name", "sub_undef_ref", "sub_nonutf8", "source_deprecated", "error_attr_variant", "const_generic", "dup_error_cb"}
@@ -37,7 +40,8 @@ GoodShape(s)  == s \in {"unit", "field1"}
 GoodAttr(a, e) ==
   \/ a \in {"tok_ok", "rx_ok", "rx_cb_ok", "rx_greedy_allowed", "no_attr", "two_attrs_ok"}
   \/ (a \in {"rx_nonutf8", "tok_nonutf8"} /\ e = "utf8_false")
-GoodEnum(e)   == e \in {"plain", "extras", "error_ty", "error_cb", "skip_ok", "skip_group", "utf8_false", "utf8_true", "crate_path", "subpattern_ok"}
+GoodEnum(e)   == e \in {"plain", "extras", "error_ty", "error_cb", "skip_ok", "skip_group", "utf8_false", "utf8_true", "crate_path", "subpattern_ok",
+                         "gen_lt", "gen_two_lt_attr", "gen_lt_none", "gen_type_ok", "gen_type_lt_order"}
 (* the second variant conflicts only with a first variant that matches "x" at priority 2 *)
 GoodSecond(s, a) == s \in {"none", "other_ok"} \/ a \notin {"tok_ok", "two_attrs_ok"}
 
